@@ -583,6 +583,7 @@ func main() {
 	dumpDir := flag.String("dump", "", "dump SMT queries of failed/unknown obligations here")
 	verbose := flag.Bool("v", false, "verbose")
 	tier := flag.String("tier", "quick", "quick | thorough (thorough also runs contracts marked `tier thorough`)")
+	ground := flag.String("ground", "", "ground re-check request (JSON file): evaluate a failed postcondition on observed results")
 	budget := flag.Float64("budget", 0, "global wall-clock budget in seconds (0 = none); remaining queries report unknown")
 	flag.Parse()
 	if *contracts == "" {
@@ -593,6 +594,17 @@ func main() {
 	if err != nil {
 		fmt.Fprintln(os.Stderr, "govc: load:", err)
 		os.Exit(2)
+	}
+	if *ground != "" {
+		data, err := os.ReadFile(*ground)
+		if err != nil {
+			fmt.Println("GROUND: not applicable (", err, ")")
+			return
+		}
+		var req groundReq
+		json.Unmarshal(data, &req)
+		fmt.Println(runGround(prog, req))
+		return
 	}
 	var keys []string
 	if *funcs == "all" {
